@@ -398,4 +398,7 @@ func checkC20(c *runCtx) {
 	for _, s := range specs {
 		vtSearch(c, p, vtSpec{Name: s.name, Model: "renom", Cfg: s.cfg, Finish: true, Deadline: dl})
 	}
+	if os.Getenv("VERIF_ONLY") == "" {
+		checkRenominateRace(c, dl)
+	}
 }
